@@ -57,12 +57,18 @@ structure Inv (s : State) : Prop where
   take2Flag : s.rpc = .take2 → s.senderDropped = true
   retNone : (s.rpc = .ret none ∨ none ∈ s.received) → s.senderDropped = true ∧ s.slot = none
   slotNe : ∀ v, s.slot = some v → v ≠ []
+  retNe : ∀ v, s.rpc = .ret (some v) → v ≠ []
+  recvNe : ∀ v, some v ∈ s.received → v ≠ []
 
 theorem inv_init : Inv init := by
   constructor <;> simp [init, inflight, slotContents, futOk]
 
+theorem applyPush_ne_nil {slot : Option (List Nat)} {x : Nat} {v : List Nat}
+    (h : applyPush slot x = some v) : v ≠ [] := by
+  cases slot <;> simp [applyPush] at h <;> subst h <;> simp
+
 theorem inv_sStep (s : State) (h : Inv s) : Inv (sStep s) := by
-  obtain ⟨data, tie, futPc, regNoPermit, parkedWaker, wokenInv, signal, dropSignal, sdFlag, rdFlag, take2Flag, retNone, slotNe⟩ := h
+  obtain ⟨data, tie, futPc, regNoPermit, parkedWaker, wokenInv, signal, dropSignal, sdFlag, rdFlag, take2Flag, retNone, slotNe, retNe, recvNe⟩ := h
   unfold sStep
   split
   · -- modStart
@@ -71,6 +77,97 @@ theorem inv_sStep (s : State) (h : Inv s) : Inv (sStep s) := by
     · constructor <;> simp_all [inflight, slotContents]
   · -- modLock
     constructor <;> simp_all [inflight, slotContents]
-  all_goals sorry
+    · rw [← data]; simp [List.append_assoc]
+    · intro v hv; exact applyPush_ne_nil hv
+  · -- modNotify
+    split
+    · unfold notifyOne
+      split <;> constructor <;> simp_all [inflight, slotContents]
+    · constructor <;> simp_all [inflight, slotContents]
+  · constructor <;> simp_all [inflight, slotContents]
+  · unfold notifyOne
+    split <;> constructor <;> simp_all [inflight, slotContents]
+  · exact ⟨data, tie, futPc, regNoPermit, parkedWaker, wokenInv, signal, dropSignal, sdFlag, rdFlag, take2Flag, retNone, slotNe, retNe, recvNe⟩
+  · exact ⟨data, tie, futPc, regNoPermit, parkedWaker, wokenInv, signal, dropSignal, sdFlag, rdFlag, take2Flag, retNone, slotNe, retNe, recvNe⟩
+
+theorem inv_awaitStep (s : State) (h : Inv s) (hp : s.rpc = .await ∨ s.rpc = .parked) : Inv (awaitStep s) := by
+  obtain ⟨data, tie, futPc, regNoPermit, parkedWaker, wokenInv, signal, dropSignal, sdFlag, rdFlag, take2Flag, retNone, slotNe, retNe, recvNe⟩ := h
+  unfold awaitStep pollReady pollNotified dropNotified
+  cases hf : s.fut <;> cases hw : s.waiter <;> rcases hp with hp | hp <;>
+    simp_all [futOk] <;> constructor <;> simp_all [inflight, slotContents, futOk, onWayToTake]
+
+theorem inv_rStep (s : State) (h : Inv s) : Inv (rStep s) := by
+  obtain ⟨data, tie, futPc, regNoPermit, parkedWaker, wokenInv, signal, dropSignal, sdFlag, rdFlag, take2Flag, retNone, slotNe, retNe, recvNe⟩ := h
+  unfold rStep
+  split
+  · -- created
+    constructor <;> simp_all [inflight, slotContents, futOk, onWayToTake]
+  · -- loopTop
+    constructor <;> simp_all [inflight, slotContents, futOk, onWayToTake]
+  · -- enable
+    unfold enableFut
+    split <;> constructor <;> simp_all [inflight, slotContents, futOk, onWayToTake]
+  · -- take1
+    split <;> constructor <;> simp_all [inflight, slotContents, futOk, onWayToTake]
+  · -- loadFlag
+    split <;> constructor <;> simp_all [inflight, slotContents, futOk, onWayToTake]
+  · -- take2
+    cases hs : s.slot <;> constructor <;> simp_all [inflight, slotContents, futOk, onWayToTake]
+  · -- ret
+    rename_i v hv
+    unfold dropNotified
+    rcases v with _ | v <;> split <;> (try split) <;> constructor <;>
+      simp_all [inflight, slotContents, futOk, onWayToTake] <;> grind
+  · exact inv_awaitStep s ⟨data, tie, futPc, regNoPermit, parkedWaker, wokenInv, signal, dropSignal, sdFlag, rdFlag, take2Flag, retNone, slotNe, retNe, recvNe⟩ (Or.inl ‹_›)
+  · exact inv_awaitStep s ⟨data, tie, futPc, regNoPermit, parkedWaker, wokenInv, signal, dropSignal, sdFlag, rdFlag, take2Flag, retNone, slotNe, retNe, recvNe⟩ (Or.inr ‹_›)
+  · exact ⟨data, tie, futPc, regNoPermit, parkedWaker, wokenInv, signal, dropSignal, sdFlag, rdFlag, take2Flag, retNone, slotNe, retNe, recvNe⟩
+  · exact ⟨data, tie, futPc, regNoPermit, parkedWaker, wokenInv, signal, dropSignal, sdFlag, rdFlag, take2Flag, retNone, slotNe, retNe, recvNe⟩
+
+theorem inv_cancel (s : State) (h : Inv s) : Inv (cancel s) := by
+  obtain ⟨data, tie, futPc, regNoPermit, parkedWaker, wokenInv, signal, dropSignal, sdFlag, rdFlag, take2Flag, retNone, slotNe, retNe, recvNe⟩ := h
+  unfold cancel
+  split
+  · constructor <;> simp_all [inflight, slotContents, futOk, onWayToTake]
+  · unfold dropNotified
+    split <;> (try split) <;> constructor <;> simp_all [inflight, slotContents, futOk, onWayToTake]
+  · exact ⟨data, tie, futPc, regNoPermit, parkedWaker, wokenInv, signal, dropSignal, sdFlag, rdFlag, take2Flag, retNone, slotNe, retNe, recvNe⟩
+
+theorem inv_step (s : State) (a : Act) (h : Inv s) : Inv (step s a) := by
+  cases a with
+  | sStep => exact inv_sStep s h
+  | rStep => exact inv_rStep s h
+  | cancel => exact inv_cancel s h
+  | callModify x =>
+    by_cases hc : s.spc = .idle
+    · obtain ⟨data, tie, futPc, regNoPermit, parkedWaker, wokenInv, signal, dropSignal, sdFlag, rdFlag, take2Flag, retNone, slotNe, retNe, recvNe⟩ := h
+      simp only [step, hc, if_true]
+      constructor <;> simp_all [inflight, slotContents, futOk, onWayToTake]
+    · simp only [step, hc, if_false]; exact h
+  | callDropSender =>
+    by_cases hc : s.spc = .idle
+    · obtain ⟨data, tie, futPc, regNoPermit, parkedWaker, wokenInv, signal, dropSignal, sdFlag, rdFlag, take2Flag, retNone, slotNe, retNe, recvNe⟩ := h
+      simp only [step, hc, if_true]
+      constructor <;> simp_all [inflight, slotContents, futOk, onWayToTake]
+    · simp only [step, hc, if_false]; exact h
+  | callRecv =>
+    by_cases hc : s.rpc = .idle
+    · obtain ⟨data, tie, futPc, regNoPermit, parkedWaker, wokenInv, signal, dropSignal, sdFlag, rdFlag, take2Flag, retNone, slotNe, retNe, recvNe⟩ := h
+      simp only [step, hc, if_true]
+      constructor <;> simp_all [inflight, slotContents, futOk, onWayToTake]
+    · simp only [step, hc, if_false]; exact h
+  | callDropReceiver =>
+    by_cases hc : s.rpc = .idle
+    · obtain ⟨data, tie, futPc, regNoPermit, parkedWaker, wokenInv, signal, dropSignal, sdFlag, rdFlag, take2Flag, retNone, slotNe, retNe, recvNe⟩ := h
+      simp only [step, hc, if_true]
+      constructor <;> simp_all [inflight, slotContents, futOk, onWayToTake]
+    · simp only [step, hc, if_false]; exact h
+
+theorem inv_run (s : State) (acts : List Act) (h : Inv s) : Inv (run s acts) := by
+  induction acts generalizing s with
+  | nil => exact h
+  | cons a rest ih => exact ih (step s a) (inv_step s a h)
+
+/-- The invariant holds in every state reachable by any interleaving of the atomic steps. -/
+theorem inv_reachable (acts : List Act) : Inv (run init acts) := inv_run init acts inv_init
 
 end ScyllaVerif.MergeChannel
